@@ -161,6 +161,22 @@ MovesUnionH(h, kn) ==
         ELSE pre(h[lc], lc) \o pre(h[rc], rc)
              \o <<MUnion(lc, rc, FALSE), MUnion(lc, rc, TRUE)>>
 
+(* a literal column on both sides (a different literal per side): after the union the column is no constant any more - it is *)
+(* grouped by / filtered on / counted                                                                                           *)
+MovesUnionC(h, kn) ==
+    LET lc == LCur(h)
+        rc == RCur(h)
+        jc == JCur(h)
+        lit(t, i, v) == IF NameFree(t, "k1") THEN <<MMutate(i, <<KV("k1", LitI(v))>>)>> ELSE <<>>
+    IN  IF jc # 0
+        THEN LET t == h[jc] k == ColOf(t, "k1") n == ColOf(t, "n") IN
+             (IF t.part = <<>> /\ n = <<>> THEN MapS(k, LAMBDA c : MGroupBy(jc, <<Col(c)>>, FALSE)) ELSE <<>>)
+             \o (IF n = <<>> THEN <<MSummarize(jc, <<KV("n", Len0)>>)>> ELSE <<>>)
+             \o (IF n = <<>> /\ t.part = <<>> THEN MapS(k, LAMBDA c : MFilter(jc, <<Fn2("eq", Col(c), LitI(2))>>)) ELSE <<>>)
+             \o (IF n = <<>> /\ t.part = <<>> /\ NameFree(t, "w") THEN MapS(k, LAMBDA c : MMutate(jc, <<KV("w", AggP("count", Col(c), <<Col(c)>>))>>)) ELSE <<>>)
+        ELSE lit(h[lc], lc, 1) \o lit(h[rc], rc, 2)
+             \o (IF ~NameFree(h[lc], "k1") /\ ~NameFree(h[rc], "k1") THEN <<MUnion(lc, rc, FALSE), MUnion(lc, rc, TRUE)>> ELSE <<>>)
+
 ---------------------------------------------------------------------------
 (* C09: a reference is created (kn = every identity that was ever visible), *)
 (* a history of verbs follows, then the reference is used.                  *)
